@@ -31,6 +31,10 @@ pub enum KOp {
     ByIndex { i: u8 },
     Version,
     Stats,
+    /// `kb.clone()`, a listing of the copy, then a change applied to THE COPY (kind 0 add, 1 remove, 2 disable,
+    /// 3 clear): for the shared knowledge base this is a read — the copy is a knowledge base of its own, and
+    /// nothing done to it may show in the original's rules, lookups or version
+    CloneMutate { kind: u8, name: u8, sal: u8, uid: u32 },
 }
 
 #[derive(Clone, Debug, Serialize, Deserialize)]
@@ -91,6 +95,23 @@ fn apply_real(kb: &KnowledgeBase, op: &KOp) -> Res {
             let s = kb.get_statistics();
             Res::Stats { version: s.version, total: s.total_rules, enabled: s.enabled_rules, disabled: s.disabled_rules, dist: s.priority_distribution.into_iter().collect() }
         }
+        KOp::CloneMutate { kind, name, sal, uid } => {
+            let copy = kb.clone();
+            let listing = copy.get_rules().iter().map(view).collect();
+            match kind % 4 {
+                0 => {
+                    let _ = copy.add_rule(mk_rule(*name, *sal, *uid));
+                }
+                1 => {
+                    let _ = copy.remove_rule(&rname(*name));
+                }
+                2 => {
+                    let _ = copy.set_rule_enabled(&rname(*name), false);
+                }
+                _ => copy.clear(),
+            }
+            Res::Rules(listing)
+        }
     }
 }
 
@@ -142,7 +163,7 @@ impl Model {
                 Res::Unit
             }
             KOp::GetRule { name } => Res::Rule(self.rules.iter().find(|r| r.0 == rname(*name)).cloned()),
-            KOp::GetRules => Res::Rules(self.rules.clone()),
+            KOp::GetRules | KOp::CloneMutate { .. } => Res::Rules(self.rules.clone()),
             KOp::Names => Res::Names(self.rules.iter().map(|r| r.0.clone()).collect()),
             KOp::Count => Res::Num(self.rules.len() as u64),
             KOp::BySalience => Res::Indices((0..self.rules.len()).collect()),
@@ -292,6 +313,9 @@ pub fn scenario(w: &KbWorkload, slot: &Shared) {
     if w.initial.len() > 20 {
         count(slot, "probe.large_knowledge_base");
     }
+    if h.iter().any(|e| matches!(e.op, KOp::CloneMutate { .. })) {
+        count(slot, "probe.copy_of_the_knowledge_base_changed");
+    }
 }
 
 fn fail(slot: &Shared, clause: &str, sig: &str, msg: String) -> ! {
@@ -302,7 +326,7 @@ fn fail(slot: &Shared, clause: &str, sig: &str, msg: String) -> ! {
 pub fn generate(rng: &mut Rng, thorough: bool) -> KbWorkload {
     let mut uid = 0u32;
     let mut gen_op = |rng: &mut Rng| -> KOp {
-        match rng.weighted(&[28, 12, 8, 3, 10, 8, 6, 5, 4, 5, 6, 5]) {
+        match rng.weighted(&[28, 12, 8, 3, 10, 8, 6, 5, 4, 5, 6, 5, 4]) {
             0 => {
                 uid += 1;
                 KOp::Add { name: rng.below(4) as u8, sal: if rng.chance(1, 10) { 3 + rng.below(2) as u8 } else { rng.below(3) as u8 }, uid }
@@ -317,7 +341,11 @@ pub fn generate(rng: &mut Rng, thorough: bool) -> KbWorkload {
             8 => KOp::BySalience,
             9 => KOp::ByIndex { i: rng.below(4) as u8 },
             10 => KOp::Version,
-            _ => KOp::Stats,
+            11 => KOp::Stats,
+            _ => {
+                uid += 1;
+                KOp::CloneMutate { kind: rng.below(4) as u8, name: rng.below(4) as u8, sal: rng.below(3) as u8, uid }
+            }
         }
     };
     let nthreads = *rng.pick(&[1usize, 2, 2, 2, 3, 3]);
@@ -364,7 +392,7 @@ pub fn describe() -> (&'static str, Vec<&'static str>, Vec<&'static str>, Vec<&'
     (
         "workloads: 0-3 sequential operations (one workload in twelve: 21-40 further add_rule calls with salience ties and a listing, so that the knowledge base is large), then 1-3 client threads x 1-4 operations (one thread: up to 8) from add_rule (4 names x 3 \
          saliences, unique description per add), remove_rule, set_rule_enabled, clear, get_rule, get_rules, get_rule_names, rule_count, \
-         get_rules_by_salience, get_rule_by_index, version, get_statistics, followed by final reads after the join; every workload runs \
+         get_rules_by_salience, get_rule_by_index, version, get_statistics, clone-then-change-the-copy, followed by final reads after the join; every workload runs \
          under N seeded schedules. evaluations = schedules executed. A schedule is non-trivial iff two operations of different threads \
          overlapped in time or the threads' operations alternated at least twice; distinct = distinct (workload, order of invoke/return \
          events) pairs",
